@@ -302,7 +302,8 @@ impl Value {
     }
     /// Or with reversed sorted flags
     pub fn or_sorted_flags_rev(&mut self, mut flags: ArrayFlags) {
-        if let Value::Box(_) = self {
+        // Negating characters swaps their case, which does not reverse their order
+        if let Value::Box(_) | Value::Char(_) = self {
             self.meta.take_sorted_flags();
             return;
         }
